@@ -828,8 +828,8 @@ namespace New
 def WF (decs : List Dec) (n : Table) : Prop :=
   (∀ k key, (n k key).Nodup) ∧ ∀ i k key, i ∈ n k key → ∃ d, decs[i]? = some d ∧ d.kind = k ∧ d.key = key
 
-theorem startDecs_WF (decs : List Dec) (l : List Dec) (i : Nat) (n n' : Table)
-    (hl : ∀ j d, l[j]? = some d → decs[i + j]? = some d) (h : WF decs n) (hs : startDecs i l n = some n') :
+theorem startDecs_WF (fl : Flags) (decs : List Dec) (l : List Dec) (i : Nat) (n n' : Table)
+    (hl : ∀ j d, l[j]? = some d → decs[i + j]? = some d) (h : WF decs n) (hs : startDecs fl i l n = some n') :
     WF decs n' := by
   induction l generalizing i n with
   | nil => simp only [startDecs, Option.some.injEq] at hs; subst hs; exact h
@@ -848,9 +848,9 @@ theorem startDecs_WF (decs : List Dec) (l : List Dec) (i : Nat) (n n' : Table)
         · subst h3
           exact ⟨d, by simpa using hl 0 d (by simp), h1.symm, h2.symm⟩
 
-theorem setupFuncs_WF (decs : List Dec) (fs : List (List Dec)) (i0 : Nat) (n : Table)
+theorem setupFuncs_WF (fl : Flags) (decs : List Dec) (fs : List (List Dec)) (i0 : Nat) (n : Table)
     (hl : ∀ j d, fs.flatten[j]? = some d → decs[i0 + j]? = some d) (h : WF decs n) :
-    WF decs (setupFuncs i0 fs n) := by
+    WF decs (setupFuncs fl i0 fs n) := by
   induction fs generalizing i0 n with
   | nil => exact h
   | cons f rest ih =>
@@ -862,10 +862,10 @@ theorem setupFuncs_WF (decs : List Dec) (fs : List (List Dec)) (i0 : Nat) (n : T
         rw [List.getElem?_append_right (by omega)]
         simpa using hj)
       rw [← this]; congr 1; omega
-    · cases hs : startDecs i0 f n with
+    · cases hs : startDecs fl i0 f n with
       | none => exact h
       | some n' =>
-        apply startDecs_WF decs f i0 n n' _ h hs
+        apply startDecs_WF fl decs f i0 n n' _ h hs
         intro j d hj
         apply hl j d
         simp only [List.flatten_cons]
@@ -875,10 +875,80 @@ theorem setupFuncs_WF (decs : List Dec) (fs : List (List Dec)) (i0 : Nat) (n : T
           · rw [List.getElem?_eq_none (by omega)] at hj; cases hj
         rw [List.getElem?_append_left hlt]; exact hj
 
-theorem init_WF (fs : List (List Dec)) : WF fs.flatten (init fs).listeners := by
-  apply setupFuncs_WF fs.flatten fs 0 Table.empty
+theorem init_WF (fl : Flags) (fs : List (List Dec)) : WF fs.flatten (init fl fs).listeners := by
+  apply setupFuncs_WF fl fs.flatten fs 0 Table.empty
   · intro j d hj; simpa using hj
   · exact ⟨by intro k key; simp [Table.empty], by intro i k key h; simp [Table.empty] at h⟩
+
+/-! ### which decorators get registered -/
+
+theorem startDecs_mono (fl : Flags) (l : List Dec) (i : Nat) (m m' : Table) (h : startDecs fl i l m = some m')
+    (x : Nat) (k : Kind) (key : String) (hx : x ∈ m k key) : x ∈ m' k key := by
+  induction l generalizing i m with
+  | nil => simp only [startDecs, Option.some.injEq] at h; subst h; exact hx
+  | cons a r ih =>
+    simp only [startDecs] at h
+    split at h
+    · cases h
+    · exact ih (i + 1) _ h ((Table.mem_add m _ _ _ _ _ _).2 (Or.inl hx))
+
+/-- every decorator of a function whose start succeeded is in the table -/
+theorem startDecs_mem (fl : Flags) (i0 : Nat) (f : List Dec) (n n' : Table)
+    (hs : startDecs fl i0 f n = some n') (j : Nat) (d : Dec) (hj : f[j]? = some d) :
+    (i0 + j) ∈ n' d.kind d.key := by
+  induction f generalizing i0 n j with
+  | nil => simp at hj
+  | cons d0 rest ih =>
+    simp only [startDecs] at hs
+    split at hs
+    · cases hs
+    · cases j with
+      | zero =>
+        simp only [List.getElem?_cons_zero, Option.some.injEq] at hj
+        subst hj
+        apply startDecs_mono fl rest (i0 + 1) _ n' hs
+        exact (Table.mem_add n _ _ _ _ _ _).2 (Or.inr ⟨rfl, rfl, rfl⟩)
+      | succ j =>
+        have := ih (i0 + 1) _ hs j (by simpa using hj)
+        have e : i0 + (j + 1) = i0 + 1 + j := by omega
+        rw [e]; exact this
+
+/-- repaired shape: a start never fails -/
+theorem startDecs_current (i : Nat) (l : List Dec) (n : Table) : ∃ n', startDecs Flags.current i l n = some n' := by
+  induction l generalizing i n with
+  | nil => exact ⟨n, rfl⟩
+  | cons d rest ih =>
+    simp only [startDecs, Flags.current, Bool.false_eq_true, false_and, if_false]
+    exact ih (i + 1) _
+
+theorem setupFuncs_mono (fl : Flags) (fs : List (List Dec)) (i0 : Nat) (n : Table)
+    (x : Nat) (k : Kind) (key : String) (hx : x ∈ n k key) : x ∈ setupFuncs fl i0 fs n k key := by
+  induction fs generalizing i0 n with
+  | nil => exact hx
+  | cons f rest ih =>
+    simp only [setupFuncs]
+    apply ih
+    cases hs : startDecs fl i0 f n with
+    | none => exact hx
+    | some n' => exact startDecs_mono fl f i0 n n' hs x k key hx
+
+/-- repaired shape: EVERY decorator of every function is registered -/
+theorem setupFuncs_current_mem (fs : List (List Dec)) (i0 : Nat) (n : Table) (j : Nat) (d : Dec)
+    (hj : fs.flatten[j]? = some d) : (i0 + j) ∈ setupFuncs Flags.current i0 fs n d.kind d.key := by
+  induction fs generalizing i0 n j with
+  | nil => simp at hj
+  | cons f rest ih =>
+    simp only [setupFuncs]
+    obtain ⟨n', hn'⟩ := startDecs_current i0 f n
+    rw [hn']
+    simp only [List.flatten_cons] at hj
+    by_cases hlt : j < f.length
+    · rw [List.getElem?_append_left hlt] at hj
+      exact setupFuncs_mono _ rest _ n' _ _ _ (startDecs_mem _ i0 f n n' hn' j d hj)
+    · rw [List.getElem?_append_right (by omega)] at hj
+      have := ih (i0 + f.length) n' (j - f.length) hj
+      have e : i0 + f.length + (j - f.length) = i0 + j := by omega
+      rw [e] at this; exact this
 
 /-- runs still owed to decorator `i` = `d` by the callback tasks that have not run yet -/
 def pendingList (d : Dec) (i : Nat) (q : List (Nat × Occ)) : List Dict :=
@@ -925,8 +995,8 @@ def Inv (decs : List Dec) (st : State) : Prop :=
     startedArgs st.started i ++ pendingList d i st.ready = Spec.expected d st.log) ∧
   (∀ p ∈ st.ready, Reg decs st.listeners p.1) ∧ (∀ r ∈ st.started, Reg decs st.listeners r.dec)
 
-theorem inv_init (fs : List (List Dec)) : Inv fs.flatten (init fs) := by
-  refine ⟨init_WF fs, ?_, ?_, ?_⟩
+theorem inv_init (fl : Flags) (fs : List (List Dec)) : Inv fs.flatten (init fl fs) := by
+  refine ⟨init_WF fl fs, ?_, ?_, ?_⟩
   · intro i d _ _
     simp [init, startedArgs, pendingList, Spec.expected]
   · intro p hp; simp [init] at hp
@@ -1040,13 +1110,13 @@ theorem listeners_step (decs : List Dec) (st : State) (x : Step) : (step decs st
   | emit r ek name kw => simp only [step, emit]; cases ek <;> rfl
   | finish r => rfl
 
-theorem inv_exec (fs : List (List Dec)) (s : List Step) :
-    Inv fs.flatten (exec fs s) ∧ (exec fs s).listeners = (init fs).listeners := by
+theorem inv_exec (fl : Flags) (fs : List (List Dec)) (s : List Step) :
+    Inv fs.flatten (exec fl fs s) ∧ (exec fl fs s).listeners = (init fl fs).listeners := by
   unfold exec
-  have h0 := inv_init fs
-  have h1 : (init fs).listeners = (init fs).listeners := rfl
+  have h0 := inv_init fl fs
+  have h1 : (init fl fs).listeners = (init fl fs).listeners := rfl
   revert h0 h1
-  generalize hst : init fs = st
+  generalize hst : init fl fs = st
   intro h0
   have : ∀ (s : List Step) (st' : State), Inv fs.flatten st' → st'.listeners = st.listeners →
       Inv fs.flatten (s.foldl (step fs.flatten) st') ∧ (s.foldl (step fs.flatten) st').listeners = st.listeners := by
@@ -1142,13 +1212,13 @@ theorem ctxInv_step (decs : List Dec) (st : State) (x : Step) (h : CtxInv st) : 
     cases ek <;> exact h
   | finish r => exact h
 
-theorem ctxInv_exec (fs : List (List Dec)) (s : List Step) : CtxInv (exec fs s) := by
+theorem ctxInv_exec (fl : Flags) (fs : List (List Dec)) (s : List Step) : CtxInv (exec fl fs s) := by
   unfold exec
-  have h0 : CtxInv (init fs) := by
+  have h0 : CtxInv (init fl fs) := by
     constructor
     · intro r; simp [init, T2C.get]
     · intro r run hr; simp [init] at hr
-  generalize init fs = st at h0
+  generalize init fl fs = st at h0
   induction s generalizing st with
   | nil => exact h0
   | cons x r ih => exact ih _ (ctxInv_step fs.flatten st x h0)
